@@ -319,6 +319,7 @@ fn err_class(e: &RustcError) -> &'static str {
         "E0412" | "E0425" | "E0433" | "E0422" => "unresolved",
         "E0432" => "e0432",
         "E0423" => "e0423",
+        "E0530" if m.contains("shadow statics") => "e0530static",
         "E0530" => "e0530",
         "E0588" => "e0588",
         "E0793" => "e0793",
